@@ -192,4 +192,50 @@ Section TSem.
       rewrite Ev. cbn. eexists. split; [reflexivity|]. now apply sfn_proper.
     - destruct (flag_value W c idx) eqn:F; cbn [tden]; rewrite F; auto.
   Qed.
+
+  Local Notation "a + b" := (vadd O a b).
+
+  (** [result = _zero_sum(result, <line>)] adds the value of the line *)
+  Lemma ctop_sound r0 e x :
+    iexpr O W sub idx e = Some x ->
+    exists w, tden r0 (ctop false e) = Some w /\ w == r0 + x.
+  Proof.
+    pose proof (vl_equiv L) as EQ.
+    intros E. destruct (@cexpr_sound r0 false e ltac:(discriminate) _ E) as (x' & Ex & Hx).
+    destruct (flat_sound _ _ Ex) as (ws & Fw & Sw).
+    unfold ctop. rewrite tden_zsum. cbn [tden_list tden obind]. rewrite Fw. cbn [obind option_map].
+    eexists. split; [reflexivity|]. rewrite (vsum_cons L), Sw, Hx. reflexivity.
+  Qed.
+
+  Lemma cwrap_sound r0 dg f e x :
+    (dg = true -> idx_i idx = idx_j idx) ->
+    iwrapped O W sub idx f e = Some x ->
+    exists w, tden r0 (TZeroSum [TResult; TCall f [cwrap_arg dg e]]) = Some w /\ w == r0 + x.
+  Proof.
+    pose proof (vl_equiv L) as EQ.
+    intros Hdg E. unfold iwrapped in E.
+    assert (exists y, tden_arg r0 f (cwrap_arg dg e) = Some y /\ sw_fn W f [y] idx == x) as (y & Ey & Hy).
+    { destruct e; cbn [cwrap_arg tden_arg];
+        try (match type of E with option_map _ ?g = _ => destruct g as [z|] eqn:G; cbn in E; [|discriminate] end;
+             inversion E; subst;
+             destruct (@cexpr_sound r0 dg _ Hdg _ G) as (z' & Ez & Hz);
+             exists z'; split; [exact Ez | apply sfn_proper; constructor; auto]).
+      destruct (iseries_arg O W sub idx f s) as [z|] eqn:G; cbn in E; [|discriminate].
+      inversion E; subst. exists z. split; auto. reflexivity. }
+    rewrite tden_zsum. cbn [tden_list]. rewrite tden_call. change (tden r0 TResult) with (Some r0).
+    cbn [tden_args obind]. rewrite Ey. cbn [obind option_map]. eexists. split; [reflexivity|].
+    rewrite (vsum_cons L), (vsum_cons L), (vsum_nil L), (add_0_r L), Hy. reflexivity.
+  Qed.
+
+  Lemma cmarker_sound r0 name h a :
+    sub (KN name) (transp idx) = Some a ->
+    exists w,
+      tden r0 (TZeroSum [TResult; match h with Herm => TDagger (TGet name true) | AntiHerm => TNeg (TDagger (TGet name true)) end]) = Some w
+      /\ w == r0 + match h with Herm => vadj O a | AntiHerm => vneg O (vadj O a) end.
+  Proof.
+    pose proof (vl_equiv L) as EQ.
+    intros E. rewrite tden_zsum. cbn [tden_list obind]. cbn [tden].
+    destruct h; cbn [tden]; rewrite E; cbn [obind option_map]; eexists; (split; [reflexivity|]);
+      rewrite (vsum_cons L), (vsum_cons L), (vsum_nil L), (add_0_r L); reflexivity.
+  Qed.
 End TSem.
